@@ -77,12 +77,12 @@ class Rule:
         except LooseEquality as e:
             loc = ""
             if e.node is not None and hasattr(e.node, "lineno"):
-                loc = f"line {e.node.lineno}"
+                loc = f"line {int(e.node.lineno)}"
             self.violation(construct, "loose-equality:" + (ast.unparse(e.node)[:60] if e.node is not None else ""), str(e), loc)
         except Undecided as e:
             loc = ""
             if e.node is not None and hasattr(e.node, "lineno"):
-                loc = f"line {e.node.lineno}"
+                loc = f"line {int(e.node.lineno)}"
             self.undecided(construct, str(e), loc)
         except AnchorError as e:
             self.error(construct, f"vanished anchor: {e}")
